@@ -44,6 +44,7 @@ class FileDumper(DumperBase):
 
         # Make sure all resources are proper CSVs
         resource: Resource = None
+        used_paths = set(['datapackage.json'])
         for i, resource in enumerate(datapackage.resources):
             if self.force_format:
                 file_format = self.forced_format
@@ -60,6 +61,16 @@ class FileDumper(DumperBase):
             if file_formatter is not None:
                 self.file_formatters[resource.name] = file_formatter
                 self.file_formatters[resource.name].prepare_resource(resource)
+                # Every resource gets an output file of its own (also not the descriptor's)
+                path = resource.descriptor['path']
+                if isinstance(path, str):
+                    base, extension = os.path.splitext(path)
+                    index = 1
+                    while path in used_paths:
+                        index += 1
+                        path = '{}_{}{}'.format(base, index, extension)
+                    resource.descriptor['path'] = path
+                    used_paths.add(path)
                 resource.commit()
                 datapackage.descriptor['resources'][i] = resource.descriptor
 
